@@ -65,6 +65,40 @@ def lean_bool(b: bool) -> str:
     return "true" if b else "false"
 
 
+class _Subst(ast.NodeTransformer):
+    def __init__(self, env):
+        self.env = env
+
+    def visit_Name(self, node):
+        return self.env.get(node.id, node)
+
+    def visit_Call(self, node):
+        node = self.generic_visit(node)
+        return uncast(node)
+
+    def visit_Attribute(self, node):
+        # celpy.celtypes.X -> X
+        if isinstance(node.value, ast.Attribute) and ast.unparse(node.value) == "celpy.celtypes":
+            return ast.Name(id=node.attr, ctx=ast.Load())
+        return self.generic_visit(node)
+
+
+def inline_return(fn: ast.FunctionDef) -> str:
+    """the expression returned by the LAST top-level `return`, with single-assignment locals inlined,
+    `cast(T, x)` dropped and `celpy.celtypes.` prefixes removed"""
+    env = {}
+    last = None
+    for st in body_of(fn):
+        if isinstance(st, ast.Assign) and len(st.targets) == 1 and isinstance(st.targets[0], ast.Name):
+            env[st.targets[0].id] = _Subst(env).visit(ast.parse(ast.unparse(st.value), mode="eval").body)
+        elif isinstance(st, ast.AnnAssign) and isinstance(st.target, ast.Name) and st.value is not None:
+            env[st.target.id] = _Subst(env).visit(ast.parse(ast.unparse(st.value), mode="eval").body)
+        elif isinstance(st, ast.Return):
+            last = st
+    need(last is not None and last.value is not None, f"{fn.name}: no top-level return")
+    return ast.unparse(_Subst(env).visit(ast.parse(ast.unparse(last.value), mode="eval").body))
+
+
 def handlers_in(fn: ast.AST) -> List[str]:
     hs = []
     for node in ast.walk(fn):
@@ -91,7 +125,7 @@ def tr_operator_in(ev: ast.Module) -> str:
         for p in params:
             if is_isinstance(st.test, p, "CELEvalError") and is_name(v, p):
                 order.append(p)
-    need(order == [item, cont], "operator_in: error operands must be returned, item first")
+    need(sorted(order) == sorted([item, cont]), "operator_in: both error operands must be returned first")
     # 3: result_value = BoolType(False)
     st = b[2]
     need(isinstance(st, (ast.Assign, ast.AnnAssign)), "operator_in: accumulator assignment")
@@ -127,6 +161,7 @@ def tr_operator_in(ev: ast.Module) -> str:
     need(isinstance(b[4], ast.Return) and is_name(b[4].value, acc), "operator_in: returns the accumulator")
     catches_te = any(x in ("TypeError", "Exception", "BaseException") for x in caught)
     err_arm = "loop item rest .err" if catches_te else "acc  -- TypeError is not caught: it would escape"
+    g0, g1 = ["item" if p == item else "container" for p in order]
     return f"""/-- `operator_in` (evaluation.py), translated: guarded loop over the container -/
 def operator_in_loop (item : V) : List V → V → V
   | [], acc => acc
@@ -137,8 +172,8 @@ def operator_in_loop (item : V) : List V → V → V
       | .error _ => {err_arm.replace('loop', 'operator_in_loop')}
 
 def operator_in (item container : V) : PyM V :=
-  if item.isErr then .ok item
-  else if container.isErr then .ok container
+  if {g0}.isErr then .ok {g0}
+  else if {g1}.isErr then .ok {g1}
   else do
     let xs ← iterOf container
     .ok (operator_in_loop item xs (.bool {lean_bool(init)}))
@@ -287,8 +322,7 @@ def tr_string_fns(ev: ast.Module, ct: ast.Module) -> str:
     out.append("def stringContainsIsItemInSelf : Bool := true")
     # function_size: IntType(len(container))
     fs = find_func(ev.body, "function_size")
-    src = ast.unparse(fs)
-    out.append(f"def sizeIsLen : Bool := {lean_bool('IntType(len(' in src)}")
+    out.append(f"def sizeIsLen : Bool := {lean_bool(inline_return(fs) == 'IntType(len(' + fs.args.args[0].arg + '))')}")
     # function_matches: re2.search(pattern, text) under `except re2.error` -> CELEvalError; BoolType(m is not None)
     fm = find_func(ev.body, "function_matches")
     ps = [a.arg for a in fm.args.args]
